@@ -4,6 +4,9 @@ import AscaVerif.Model.Place
 import AscaVerif.Model.Seg
 import AscaVerif.Lemmas.Bits
 import AscaVerif.Props.C18
+import AscaVerif.Model.Ast
+import AscaVerif.Model.Mods
+import AscaVerif.Props.C04
 import AscaVerif.Model.Run
 import AscaVerif.Lemmas.Run
 import AscaVerif.Props.C10
